@@ -132,6 +132,15 @@ def qsm_mul(a: QSM, b: QSM) -> QSM | None:
             eta = none_safe_add(eta, upper_a.a.transpose() @ psi @ lower_b.q)
             lam = none_safe_add(lam, upper_a.q @ psi @ lower_b.q)
 
+        # When both factors have a part on the same side, the generators below
+        # have order m_a + m_b, so a missing coupling term is a block of zeros
+        if lower_a is not None and lower_b is not None:
+            alpha = jnp.zeros_like(lower_a.q) if alpha is None else alpha
+            beta = jnp.zeros_like(lower_b.p) if beta is None else beta
+        if upper_a is not None and upper_b is not None:
+            theta = jnp.zeros_like(upper_b.q) if theta is None else theta
+            eta = jnp.zeros_like(upper_a.p) if eta is None else eta
+
         s = [alpha] if alpha is not None else []
         s += [lower_b.q] if lower_b is not None else []
 
